@@ -275,6 +275,11 @@ def _mentioned_rules(body):
         o = rv.get("o")
         if isinstance(o, dict) and o.get("k") == "const" and o.get("ty") == "simplesl_parser::Rule":
             out.add(o["val"].rsplit("::", 1)[-1])
+    for pb in body.raw.get("promoted", []):
+        for blk in pb["blocks"]:
+            for st in blk["stmts"]:
+                if st["k"] == "assign" and st["rv"]["k"] == "agg" and st["rv"].get("adt") == "simplesl_parser::Rule":
+                    out.add(st["rv"]["variant"])
     return out
 
 
